@@ -392,16 +392,60 @@ pub fn valid_frame(rng: &mut Rng) -> (Frame, String) {
             label = format!("seqcount n={}", n);
         }
         1 => {
-            // repeat offsets: offset code 0/1 (values 1..3) with and without literals
+            // repeat offsets: a walk through the history with every kind of step (new small offsets that
+            // collide with existing entries, rep1/rep2/rep3 with literals, rep2/rep3/rep1-1 without), simulated
+            // here so that only legal steps are emitted.  One RLE-mode block per (ll_code, of_code) run.
             blocks.push(Block::Raw(seed_raw.clone()));
-            let with_lits = rng.chance(1, 2);
-            let n = rng.range(1, 40) as usize;
-            let ll_code = if with_lits { rng.range(1, 15) as u8 } else { 0 };
-            let lits = { let n_ = n * ll_code as usize + rng.below(5) as usize; rng.bytes(n_) };
-            let of_code = rng.below(2) as u8; // value 1, or 2..3
-            let seqs = (0..n).map(|_| (0, rng.below(8) as u32, rng.below(2) as u32)).collect();
-            blocks.push(Block::Comp(SeqBlock { lits: Lit::Raw(lits), ll_code, ml_code: rng.range(0, 31) as u8, of_code, seqs, count_bytes: None, modes: None, trailer: vec![] }));
-            label = format!("repeat offsets ll_code={} of_code={}", ll_code, of_code);
+            let mut hist = [1u32, 4, 8];
+            let mut produced = seed_raw.len();
+            let nblocks = rng.range(3, 25) as usize;
+            for _ in 0..nblocks {
+                let ll_code = if rng.chance(1, 2) { 0u8 } else { rng.range(1, 3) as u8 };
+                let of_code = *rng.pick(&[0u8, 1, 1, 2, 2, 3]);
+                let n = rng.range(1, 6) as usize;
+                let mut seqs = Vec::new();
+                for _ in 0..n {
+                    // choose an extra value whose step is legal in the current state
+                    let mut chosen = None;
+                    for _try in 0..6 {
+                        let e = rng.below(1u64 << of_code) as u32;
+                        let ov = (1u32 << of_code) + e;
+                        let (off, nh) = if ov > 3 {
+                            (ov - 3, [ov - 3, hist[0], hist[1]])
+                        } else if ll_code > 0 {
+                            match ov {
+                                1 => (hist[0], hist),
+                                2 => (hist[1], [hist[1], hist[0], hist[2]]),
+                                _ => (hist[2], [hist[2], hist[0], hist[1]]),
+                            }
+                        } else {
+                            match ov {
+                                1 => (hist[1], [hist[1], hist[0], hist[2]]),
+                                2 => (hist[2], [hist[2], hist[0], hist[1]]),
+                                _ => (hist[0].wrapping_sub(1), [hist[0].wrapping_sub(1), hist[0], hist[1]]),
+                            }
+                        };
+                        if off >= 1 && (off as usize) <= produced + ll_code as usize {
+                            chosen = Some((e, nh));
+                            break;
+                        }
+                    }
+                    match chosen {
+                        Some((e, nh)) => {
+                            hist = nh;
+                            seqs.push((0, 0, e));
+                            produced += ll_code as usize + 3;
+                        }
+                        None => break,
+                    }
+                }
+                if seqs.is_empty() {
+                    continue;
+                }
+                let lits = { let n_ = seqs.len() * ll_code as usize; rng.bytes(n_) };
+                blocks.push(Block::Comp(SeqBlock { lits: Lit::Raw(lits), ll_code, ml_code: 0, of_code, seqs, count_bytes: None, modes: None, trailer: vec![] }));
+            }
+            label = format!("repeat-offset walk over {} blocks, final history {:?}", blocks.len() - 1, hist);
         }
         2 => {
             // long matches / long literal runs: codes with many extra bits
